@@ -102,6 +102,48 @@ func zzC05_ownid() {
 	}
 }
 
+// other exchanges happen between the two copies (the pool recycles the reply message in between): the duplicate
+// still gets the reply of its own exchange
+func zzPooledRequest(cc *Conn, typ message.Type, mid int32, token message.Token) *pool.Message {
+	m := cc.AcquireMessage(cc.Context()) // like Conn.Process: received messages come from the pool
+	m.SetType(typ)
+	m.SetMessageID(mid)
+	m.SetCode(codes.GET)
+	m.SetToken(token)
+	return m
+}
+
+func zzC05_interleaved() {
+	s := zzNewSession()
+	calls := 0
+	cc := zzNewConn(s, zzConnCfg{midSeed: 1000, poolSize: 1024, handler: func(w *responsewriter.ResponseWriter[*Conn], r *pool.Message) {
+		calls++
+		_ = w.SetResponse(codes.Content, message.AppOctets, bytesReader([]byte{byte(calls), r.Token()[0]}))
+	}})
+	symSetNow(time.Unix(0, 1<<41))
+	con := symChoose("type", 2) == 0
+	typ := message.NonConfirmable
+	if con {
+		typ = message.Confirmable
+	}
+	cc.ProcessReceivedMessage(zzPooledRequest(cc, typ, 7, message.Token{0xA1, 0xA2}))
+	symAssert(calls == 1 && len(s.written) == 1, "first request handled and answered")
+	others := 1 + symChoose("others", symParam("others", 2))
+	for i := 0; i < others; i++ {
+		cc.ProcessReceivedMessage(zzPooledRequest(cc, typ, int32(20+i), message.Token{byte(0xB0 + i)}))
+	}
+	symAssert(calls == 1+others, "the other requests are handled")
+	cc.ProcessReceivedMessage(zzPooledRequest(cc, typ, 7, message.Token{0xA1, 0xA2}))
+	symCover("replayed")
+	symAssert(calls == 1+others, "the duplicate is not handed to the handler")
+	if len(s.written) == 2+others {
+		a, b := s.written[0], s.written[len(s.written)-1]
+		symAssert(b.code == a.code && bytes.Equal(b.token, a.token) && bytes.Equal(b.payload, a.payload) && b.cf == a.cf, "the duplicate's reply is the first reply of its own exchange, whatever happened in between")
+	} else {
+		symAssert(false, "the duplicate is answered")
+	}
+}
+
 // C05-B — the two copies are processed concurrently (2 goroutines): the handler still runs at most once
 func zzC05_concurrent() {
 	s := zzNewSession()
